@@ -22,10 +22,12 @@ Alphabet ==
    \* the same objects under other difficulty values (same size, maybe the same address), and a builder value that is reused
    \* with other mods after it has calculated once
    C("convert", "m6", "mania", "-"), C("rcalc", "m1", "N", "-"), C("rcalc", "m1", "T", "-"),
-   C("rperf", "m1", "N", "-"), C("rperf", "m1", "T", "-")}
+   C("rperf", "m1", "N", "-"), C("rperf", "m1", "T", "-"),
+   \* a lazer mod whose settings are all unset (Random without a seed): whatever the library does with it, it does it every time
+   C("calc", "m2", "R1", "-"), C("gnext", "m2", "R1", "h7")}
   \cup (IF Wide THEN {C("strains", "m1", "B", "-"), C("convert", "m5", "taiko", "-"), C("calc", "m1", "B", "-"),
                       C("attrs", "m2", "B", "-"), C("bpm", "m2", "-", "-"), C("gnext", "m3", "B", "h5"), C("gnext", "m4", "A", "h6")} ELSE {})
-Handles == {"h1", "h2", "h3", "h4", "h5", "h6"}
+Handles == {"h1", "h2", "h3", "h4", "h5", "h6", "h7"}
 Init == hist = <<>> /\ pos = [h \in Handles |-> 0]
 Next == /\ Len(hist) < MaxLen
         /\ \E c \in Alphabet : hist' = Append(hist, [c |-> c, key |-> KeyOf(c, pos)]) /\ pos' = StepPos(c, pos)
